@@ -990,10 +990,14 @@ class Interp:
 
     def ev_Cross(self, e, s):
         a, b = e.ufl_operands
-        self._nofree(a, b)
-        va, vb = self.val(a, s), self.val(b, s)
-        m = lambda i, j: self.js.mul(va[:, i], vb[:, j])
-        return np.stack([m(1, 2) - m(2, 1), m(2, 0) - m(0, 2), m(0, 1) - m(1, 0)], axis=1)
+        f = self.lab()
+        i, j = f("i"), f("j")
+        la = "".join(f(x) for x in a.ufl_free_indices)
+        lb = "".join(f(x) for x in b.ufl_free_indices)
+        lo = "".join(f(x) for x in e.ufl_free_indices)
+        # all products a_i b_j (free indices of the operands are trailing axes), then the antisymmetric combinations
+        P = self.js.mul(self.val(a, s), self.val(b, s), f"{i}{la},{j}{lb}->{i}{j}{lo}")
+        return np.stack([P[:, 1, 2] - P[:, 2, 1], P[:, 2, 0] - P[:, 0, 2], P[:, 0, 1] - P[:, 1, 0]], axis=1)
 
     def ev_Trace(self, e, s):
         return np.trace(self.val(e.ufl_operands[0], s), axis1=1, axis2=2)
